@@ -112,7 +112,7 @@ static bool is_ref_op(uint8_t k) { return k == O_RAR || k == O_RSW || k == O_ROT
 static bool is_elem_op(uint8_t k) { return k >= O_XR && k <= O_XDES; }
 static bool is_c01_op(uint8_t k)
 {
-    return k == O_NEW || k == O_DEF || k == O_EB || k == O_PB || k == O_ER1 || k == O_ER2 || k == O_CL || k == O_RS || k == O_FILL;
+    return k == O_NEW || k == O_DEF || k == O_EB || k == O_PB || k == O_ER1 || k == O_ER2 || k == O_CL || k == O_RS || k == O_FILL || k == O_EBS;
 }
 
 static bool has_prop(const std::string& props, const std::string& p)
